@@ -214,7 +214,9 @@ Step(env, st, o) ==
                   accX |-> accX1],
          next |-> [h |-> b, cand |-> o.cand, voters |-> o.voters, neo |-> o.neo, nafee |-> o.nafee, inforce |-> inforce,
                    g |-> Append(st.g, o.gpb), ps |-> ps1,
-                   accLo |-> accLo1, accHi |-> accHi1, accN |-> accN1, accX |-> accX1, last |-> last1]]
+                   accLo |-> accLo1, accHi |-> accHi1, accN |-> accN1,
+                   \* a code-shaped difference is reported once: the prediction continues from the observed storage
+                   accX |-> IF dGpv THEN accX1 ELSE o.gpv, last |-> last1]]
 
 \* the genesis observation: the standby committee answers everything
 InitFails(env, o) ==
